@@ -51,6 +51,11 @@ func (tx *XATx) Rollback() error {
 		}
 	}
 	if originTx.tranCtx.OpenGlobalTransaction() && originTx.tranCtx.IsBranchRegistered() {
+		if c := tx.conn; c != nil {
+			// (only when the branch is rolled back on the database: otherwise the coordinator has to go on asking)
+			c.reportPhaseOneFailed()
+			return nil
+		}
 		return originTx.report(false)
 	}
 	return nil
